@@ -4,7 +4,7 @@ CONSTANT Extra = {0, 1, 2}
 CONSTANT ZeroTracked = TRUE
 CONSTANT MaxQ = 2
 CONSTANT W0 = 100
-CONSTANT TickW = {80}
+CONSTANT TickW = {0, 20, 80}
 CONSTANT Guarded = TRUE
 VIEW View
 INVARIANT TypeOK
